@@ -16,7 +16,12 @@ if order is not None:
     def ordered(settings):
         found = list(orig(settings))
         rank = {name: i for i, name in enumerate(order)}
-        found.sort(key=lambda p: (rank.get(os.path.basename(str(p)), len(rank)), str(p)))
+        src = os.path.join(os.getcwd(), "src")
+
+        def key(p):
+            rel = os.path.relpath(str(p), src).replace(os.sep, "/")
+            return (rank.get(rel, rank.get(os.path.basename(str(p)), len(rank))), str(p))
+        found.sort(key=key)
         return found
     fp.find_all_files = ordered
 
